@@ -299,3 +299,139 @@ def run_real(c, rng=None, signals_factory=None, alpha_factory=None, csv_dir=None
     finally:
         if own:
             shutil.rmtree(csv_dir, ignore_errors=True)
+
+
+# ---------------------------------------------------------------------------------------------
+# code -> spec for whole backtests: record every broker call a real session makes
+class BrokerRecorder(object):
+    """Wraps SimulatedBroker's public calls (class level, restored on exit) while a real session is built and
+    run, and records one event per call - call, outcome class, observed fills / marks, quotes, projected
+    post-state - in the format specs/trace/BrokerTrace.tla validates."""
+
+    METHODS = ("create_portfolio", "subscribe_funds_to_portfolio", "withdraw_funds_from_portfolio", "submit_order", "update")
+
+    def __init__(self, observer, assets):
+        self.ob = observer
+        self.assets = assets
+        self.events = []
+        self.oid_of = {}
+        self.noid = 0
+        self.t0 = None
+
+    def _quotes(self, b, dt):
+        q = {}
+        for a in self.assets:
+            try:
+                bid, ask = b.data_handler.get_asset_latest_bid_ask_price(dt, a)
+            except Exception:
+                bid = ask = float("nan")
+            q[a] = dict(bid=0 if bid != bid else mil(bid), ask=0 if ask != ask else mil(ask))
+        return q
+
+    def _record(self, b, call, err, quote):
+        from .broker_rig import project_broker
+        marks, fills = self.ob.take()
+        post = project_broker(b, self.oid_of)
+        # the data handler's answers move with time: make every move an explicit environment event (as the
+        # specification has it) placed before the call during which the new quotes were in force
+        if self.events:
+            cur = dict((a, dict(v)) for a, v in self.events[-1]["quote"].items())
+            for a in sorted(quote):
+                if quote[a] != cur[a]:
+                    cur[a] = dict(quote[a])
+                    self.events.append(dict(call=dict(op="price", asset=a, bid=quote[a]["bid"], ask=quote[a]["ask"]), err="ok",
+                                            fills=[], marks=[], quote=dict((x, dict(v)) for x, v in cur.items()),
+                                            post=self.events[-1]["post"]))
+        self.events.append(dict(call=call, err=err,
+                                fills=[dict(pid=f["pid"], oid=self.oid_of.get(f["oid"], 0), asset=f["asset"], qty=int(f["qty"]),
+                                            px=mil(f["px"]), comm=mil(f["comm"]), t=minutes(f["t"])) for f in fills],
+                                marks=[dict(pid=m["pid"], asset=m["asset"], px=mil(m["px"]), t=minutes(m["t"])) for m in marks],
+                                quote=quote, post=post))
+
+    def installed(self):
+        import contextlib
+        from qstrader.broker.simulated_broker import SimulatedBroker
+        rec = self
+        saved = dict((m, getattr(SimulatedBroker, m)) for m in self.METHODS)
+        saved["__init__"] = SimulatedBroker.__init__
+
+        def init(b, start_dt, *a, **kw):
+            saved["__init__"](b, start_dt, *a, **kw)
+            rec.t0 = minutes(start_dt)
+            rec.q0 = rec._quotes(b, start_dt)
+            rec._record(b, dict(op="sub_acct", a=mil(b.initial_funds)), "ok", rec.q0)
+
+        def wrap(name, mk_call):
+            def f(b, *a, **kw):
+                call, dt = mk_call(b, *a, **kw)
+                quote = rec._quotes(b, dt)
+                err = "ok"
+                try:
+                    return saved[name](b, *a, **kw)
+                except Exception as e:
+                    err = type(e).__name__
+                    raise
+                finally:
+                    rec._record(b, call, err, quote)
+            return f
+
+        def mk_submit(b, pid, order):
+            rec.noid += 1
+            rec.oid_of[order.order_id] = rec.noid
+            return dict(op="submit", pid=pid, asset=order.asset, qty=int(order.quantity)), b.current_dt
+
+        @contextlib.contextmanager
+        def cm():
+            SimulatedBroker.__init__ = init
+            SimulatedBroker.create_portfolio = wrap("create_portfolio", lambda b, pid, name=None: (dict(op="create", pid=str(pid)), b.current_dt))
+            SimulatedBroker.subscribe_funds_to_portfolio = wrap("subscribe_funds_to_portfolio",
+                                                                lambda b, pid, amount: (dict(op="sub_pf", pid=pid, a=mil(amount)), b.current_dt))
+            SimulatedBroker.withdraw_funds_from_portfolio = wrap("withdraw_funds_from_portfolio",
+                                                                 lambda b, pid, amount: (dict(op="wd_pf", pid=pid, a=mil(amount)), b.current_dt))
+            SimulatedBroker.submit_order = wrap("submit_order", mk_submit)
+            SimulatedBroker.update = wrap("update", lambda b, dt: (dict(op="update", t=minutes(dt)), dt))
+            try:
+                yield rec
+            finally:
+                for m, f in saved.items():
+                    setattr(SimulatedBroker, m, f)
+        return cm()
+
+    def trace(self, ident, fee):
+        def clean(e):
+            post = dict((k, v) for k, v in e["post"].items() if k != "_f")
+            post["acctEq"] = post["acctEq"] if isinstance(post["acctEq"], int) else -999999999
+            post["acctMv"] = post["acctMv"] if isinstance(post["acctMv"], int) else -999999999
+            post["queue"] = dict((p, [dict(oid=o[0], asset=o[1], qty=o[2]) for o in q]) for p, q in post["queue"].items())
+            return dict(call=e["call"], err=e["err"], fills=e["fills"], marks=e["marks"], quote=e["quote"], post=post)
+        return dict(id=ident, t0=self.t0, quote=self.q0, fee=fee, ev=[clean(e) for e in self.events])
+
+
+def record_session_trace(c, ident, rng=None):
+    """Run the real session for configuration c with every broker call recorded.  Returns the trace, or None when
+    the run's magnitudes would leave TLC's 32-bit integers (gross quantity x total paid per position)."""
+    csv_dir = tempfile.mkdtemp(prefix="qsv-sesst-")
+    try:
+        write_market(csv_dir, c["market"], rng)
+        ob = Observer()
+        rec = BrokerRecorder(ob, [SYM[a] for a in ASSETS])
+        with ob.installed():
+            with rec.installed():
+                try:
+                    sess = build_session(c, csv_dir)
+                    sess.run(results=False)
+                except Exception:
+                    pass
+        if rec.t0 is None:
+            return None
+        gross, total = {}, {}
+        for e in rec.events:
+            for f in e["fills"]:
+                k = (f["pid"], f["asset"])
+                gross[k] = gross.get(k, 0) + abs(f["qty"])
+                total[k] = total.get(k, 0) + abs(f["qty"] * f["px"])
+        if any(gross[k] * total[k] >= 1500000000 for k in gross):
+            return None
+        return rec.trace(ident, c["fee"])
+    finally:
+        shutil.rmtree(csv_dir, ignore_errors=True)
